@@ -7,7 +7,8 @@ LEVEL = "proof"
 ALPHA = [b".", b"g", b"G", b"i", b"t", b"T", b"~", b"1", b" ", b":", b"\\", b"/", b"x"]
 NAMES = [b"..", b".", b"", b".git", b".GIT", b".git ", b".git.", b"git~1", b"GIT~1", b".git::$INDEX_ALLOCATION", b".git . .", b"a", b"b", b"a\\b", b"sub", b".gitmodules",
          b"C:", b"x\\.git", b".git\\x", b"\xe2\x80\x8c.git", b".gi\xe2\x80\x8ct", b"hooks", b"config"]
-LINKS = [b"../outside_dir", b"..", b".git", b".git/hooks", b"../canary", b"a", b"/nonexistent", b"../../.."]
+LINKS = [b"../outside_dir", b"..", b".git", b".git/hooks", b"../canary", b"a", b"@BOX@/abs-created", b"@BOX@/outside_dir", b"../../..",
+         b"../outside_dir/created", b".git/hooks/pre-commit", b"../newfile"]
 
 
 def hexs(b):
@@ -69,12 +70,20 @@ def run(rep):
     scen.append(([ordinary() + [entry(b"suid", "m104755"), entry(b"ww", "m100666"), entry(b"sticky", "m101777")]], ["reset"]))
     # symlink then something below it, in every operation order
     for link in LINKS:
-        for op in ("reset", "checkout", "checkout-branch"):
+        for op in ("reset", "checkout", "checkout-branch", "reset-index"):
             scen.append(([ordinary() + [entry(b"a", "l", link)], ordinary() + [entry(b"a/victim", "f", b"pwned"), entry(b"a/hooks/pre-commit", "x", b"evil")]], [op]))
+            # two levels below the link: directories would have to be created through it
+            scen.append(([ordinary() + [entry(b"a", "l", link)], ordinary() + [entry(b"a/sub/deeper/victim", "f", b"pwned")]], [op]))
+            # the link itself replaced by a regular file / executable: must not be written through a dangling link
+            scen.append(([ordinary() + [entry(b"a", "l", link)], ordinary() + [entry(b"a", "x", b"#!/bin/sh\necho pwned\n")]], [op]))
             scen.append(([ordinary() + [entry(b"a/x")], ordinary() + [entry(b"a", "l", link)], ordinary() + [entry(b"a/victim", "f", b"pwned")]], [op]))
             scen.append(([ordinary() + [entry(b"d/a", "l", link), entry(b"d/b")], ordinary() + [entry(b"d/a/victim", "f", b"pwned"), entry(b"d/b")]], [op]))
     # first commit itself: a symlink and, in the same tree, a path whose leading directory is that name cannot coexist in one tree;
     # file <-> directory <-> symlink transitions of one name
+    # a checkout that aborts half way (an invalid entry after a symlink was created) followed by a removal below that name
+    for op in ("reset", "checkout", "reset-index"):
+        scen.append(([ordinary() + [entry(b"d/x", "f", b"data of d/x")], ordinary() + [entry(b"d", "l", b"../outside_dir"), entry(b"zz/.git/evil")], ordinary()], [op]))
+        scen.append(([ordinary() + [entry(b"d/x", "f", b"data of d/x")], ordinary() + [entry(b"d", "l", b"../outside_dir"), entry(b"zz/.git/evil")], [entry(b"README")]], [op]))
     for op in ("reset", "checkout"):
         scen.append(([ordinary() + [entry(b"n")], ordinary() + [entry(b"n/x")], ordinary() + [entry(b"n", "l", b"../outside_dir")]], [op]))
         scen.append(([ordinary() + [entry(b"n", "l", b"README")], ordinary() + [entry(b"n")], ordinary() + [entry(b"n/deep/x")]], [op]))
